@@ -24,6 +24,8 @@ pub struct Interp {
     pub log: Vec<String>,
     pub version: Option<(u8, u8)>,
     pub ncalls: usize,
+    /// planned calls of methods the scan of the sources cannot see (skipped)
+    pub skipped_invisible: usize,
     pub errors_seen: Vec<String>,
     pub methods_called: Vec<&'static str>,
     pub selection_calls: usize,
@@ -53,6 +55,7 @@ impl Interp {
             log: vec![],
             version: None,
             ncalls: 0,
+            skipped_invisible: 0,
             errors_seen: vec![],
             methods_called: vec![],
             selection_calls: 0,
@@ -201,6 +204,10 @@ impl Interp {
 
     /// Calls a generated call site with planned arguments and checks the effect.
     pub fn call(&mut self, cs: &mut Cs, mm: &'static MethodMeta) -> R {
+        if is_absent(mm) {
+            self.skipped_invisible += 1;
+            return Ok(());
+        }
         self.env.block_len = self.block_len();
         self.env.ip_end_only = self.env.conforming && closes_block(mm);
         let env = self.env.clone();
@@ -225,6 +232,10 @@ impl Interp {
     }
 
     pub fn call_with(&mut self, mm: &'static MethodMeta, args: Vec<ArgVal>, explicit_id: Option<u32>) -> R {
+        if is_absent(mm) {
+            self.skipped_invisible += 1;
+            return Ok(());
+        }
         let what = render_args(mm, &args);
         let (pre_f, pre_b) = self.selection();
         let callf = mm.mi.call.expect("callable method");
